@@ -61,25 +61,29 @@ impl Shared {
   }
 }
 
-/// What a probe does when it is called (scripted reactions of spec section 3.3).
-pub type Reaction = Arc<dyn Fn(&Val) + Send + Sync>;
-
-pub struct Probe {
+/// Recording subscriber. `on_next` is the scripted reaction of spec section 3.3
+/// (boxed FnMut; `+ Send` in the thread-safe form).
+pub struct Probe<F> {
   pub id: i64,
   pub sh: Arc<Shared>,
-  pub on_next: Option<Reaction>,
+  pub on_next: Option<F>,
 }
 
-impl Probe {
-  pub fn new(sh: &Arc<Shared>, on_next: Option<Reaction>) -> Probe {
+pub type ReactL = Box<dyn FnMut(&Val)>;
+pub type ReactT = Box<dyn FnMut(&Val) + Send>;
+pub type ProbeL = Probe<ReactL>;
+pub type ProbeT = Probe<ReactT>;
+
+impl<F> Probe<F> {
+  pub fn new(sh: &Arc<Shared>, on_next: Option<F>) -> Probe<F> {
     Probe { id: sh.new_probe_id(), sh: sh.clone(), on_next }
   }
 }
 
-impl Observer<Val, Val> for Probe {
+impl<F: FnMut(&Val)> Observer<Val, Val> for Probe<F> {
   fn next(&mut self, v: Val) {
     self.sh.record(self.id, 'N', v.clone());
-    if let Some(r) = &self.on_next {
+    if let Some(r) = self.on_next.as_mut() {
       r(&v)
     }
   }
